@@ -8,7 +8,7 @@ from ..cfg import NORMAL, Node
 from ..core import Ctx
 from ..flow import ALL, find_path, names_in
 from ..model import AnalysisError, FunctionInfo, dotted, norm_text
-from .common import eval3, edge_target, kwarg, reachable_from
+from .common import UNKNOWN, concrete_eval, eval3, edge_target, kwarg, reachable_from
 
 EXPLANATION = (
     "Static analysis of the metadata mutators: (R1) sibling agreement of the three snapshot-removal sites (expire mutator, "
@@ -87,6 +87,7 @@ def check(ctx: Ctx) -> None:
     r5(ctx)
     r6(ctx)
     r7(ctx)
+    r8(ctx)
 
 
 def _snap_assign(ctx: Ctx, f: FunctionInfo) -> List[Node]:
@@ -151,8 +152,12 @@ def r1(ctx: Ctx) -> None:
         for l in logs:
             v = l.ast.value  # type: ignore[union-attr]
             if isinstance(v, ast.ListComp) and "snapshot_log" in norm_text(v.generators[0].iter) and v.generators[0].ifs:
-                cond = norm_text(v.generators[0].ifs[0])
-                okl = ("snapshot_id in kept_ids" in cond) or ("snapshot_id != snapshot_id" in cond) or (" in " in cond and "ids" in cond)
+                c0 = v.generators[0].ifs[0]
+                cond = norm_text(c0)
+                # keep an entry iff its snapshot survives: `<e>.snapshot_id in <kept ids>` or `<e>.snapshot_id != <removed id>`
+                okl = isinstance(c0, ast.Compare) and len(c0.ops) == 1 and "snapshot_id" in norm_text(c0.left) and (
+                    (isinstance(c0.ops[0], ast.In) and "ids" in norm_text(c0.comparators[0]))
+                    or (isinstance(c0.ops[0], ast.NotEq) and "snapshot_id" in norm_text(c0.comparators[0])))
         ctx.ob("C15.R1", f, f"{role}: snapshot_log keeps only surviving snapshots", logs[0] if logs else None, okl,
                "no dangling log rows, order preserved (a filtering comprehension over the log)", text=role)
     # (c) never drop the current snapshot
@@ -416,6 +421,23 @@ def r6(ctx: Ctx) -> None:
     ok = bool(slices) and all(isinstance(s.slice.lower, ast.UnaryOp) and isinstance(s.slice.lower.op, ast.USub) and s.slice.upper is None for s in slices)
     ctx.ob("C15.R6", f, "trim keeps the newest entries (log[-max:])", None, ok,
            f"slices: {[norm_text(s) for s in slices]}")
+    # the bound is the one configured in the version being WRITTEN (new_metadata.properties), not in the superseded one
+    newp, basep = f.params[1].name if f.params[0].name == "self" else f.params[0].name, None
+    pn = [p.name for p in f.params if p.name != "self"]
+    newp, basep = (pn[0], pn[1]) if len(pn) >= 2 else (pn[0], None)
+    fsl = ctx.slicer(f)
+    for sn in [n for n in g.nodes if n.kind == "stmt" and n.ast is not None and any(x in slices for x in ast.walk(n.ast))]:
+        for sx in [x for x in ast.walk(sn.ast) if x in slices]:
+            bound = sx.slice.lower.operand if isinstance(sx.slice.lower, ast.UnaryOp) else (sx.slice.lower or sx.slice.upper)  # type: ignore[union-attr]
+            if bound is None:
+                continue
+            org = fsl.origins(bound, sn.id)
+            from_new = any(nm.startswith(newp + ".properties") for nm in org["names"])
+            from_base = basep is not None and any(nm.startswith(basep + ".properties") for nm in org["names"])
+            ctx.ob("C15.R6", f, "the trim bound is read from the metadata being written", sn, from_new and not from_base,
+                   f"bound `{norm_text(bound)}` derives from {sorted(n for n in org['names'] if 'properties' in n)}: a commit that "
+                   "lowers write.metadata.previous-versions-max must already honour it (the written version would otherwise carry "
+                   "more log entries than it allows itself)")
     tv = _entry_value("timestamp-ms")
     ok = tv is not None and "base_metadata.last_updated_ms" in norm_text(tv)
     ctx.ob("C15.R6", f, "entry timestamp is the superseded version's stamp", None, ok, "")
@@ -432,12 +454,70 @@ def r6(ctx: Ctx) -> None:
            "the written version names the version it superseded", witness=ctx.path_witness(c, w))
 
 
+def r8(ctx: Ctx, rid: str = "C15.R8") -> None:
+    ctx.rule(rid, "a file delete keeps everything else: in the manifest loop of _commit_file_ops every existing manifest reaches "
+             "final_manifests.append (unchanged or rewritten with its survivors) unless none of its files survives", 1)
+    f = ctx.fn("transaction.Transaction._commit_file_ops")
+    g = ctx.cfg(f)
+    sl = ctx.slicer(f)
+    lists = ctx.calls(f, name="create_manifest_list_file")
+    if not lists:
+        raise AnalysisError("create_manifest_list_file vanished from _commit_file_ops")
+    larg = lists[0].ast.args[0] if lists[0].ast.args else kwarg(lists[0].ast, "manifest_files")  # type: ignore[union-attr]
+    lname = dotted(larg) if larg is not None else None
+    if not lname:
+        raise AnalysisError("the manifest list argument is not a variable")
+    appends = [n for n in g.calls() if isinstance(n.ast, ast.Call) and isinstance(n.ast.func, ast.Attribute)
+               and n.ast.func.attr in ("append", "extend") and dotted(n.ast.func.value) == lname]
+    loops = [l for l in g.nodes if l.kind == "loop" and isinstance(l.ast, ast.For)
+             and any(isinstance(c, ast.Call) and (dotted(c.func) or "").endswith("read_manifest_list_file")
+                     for c in sl.origins(l.ast.iter, l.id)["calls"])
+             and any(any(fr.kind == "loop" and fr.node is l.ast for fr in a.frames) for a in appends)]
+    if not loops:
+        raise AnalysisError("the per-manifest delete loop of _commit_file_ops was not found")
+    lp = loops[0]
+    # the survivors variable: assigned from a filtering comprehension inside the loop
+    svars = {n.ast.targets[0].id for n in g.nodes if n.kind == "stmt" and isinstance(n.ast, ast.Assign) and len(n.ast.targets) == 1
+             and isinstance(n.ast.targets[0], ast.Name) and isinstance(n.ast.value, ast.ListComp) and n.ast.value.generators[0].ifs
+             and any(fr.kind == "loop" and fr.node is lp.ast for fr in n.frames)}
+    if not svars:
+        raise AnalysisError("no filtered survivors list in the delete loop")
+    env = {v: () for v in svars}
+    skip_ok: Set[Tuple[int, int]] = set()
+    for b in g.nodes:
+        if b.kind == "branch" and b.ast is not None and (set(names_in(b.ast)) & svars):
+            v = concrete_eval(ctx, f, b.ast, env, b.id)
+            if v is not UNKNOWN:
+                skip_ok |= {(b.id, d) for d, l in g.succ[b.id] if l == ("true" if v else "false")}
+    body = edge_target(g, lp, "true")
+    inside = [a for a in appends if any(fr.kind == "loop" and fr.node is lp.ast for fr in a.frames)]
+    w = None
+    if body is not None:
+        w = find_path(g, body, [lp.id], avoid=[a.id for a in inside], labels=NORMAL,
+                      edge_ok=lambda s_, d_, l_: (s_, d_) not in skip_ok)
+    ctx.ob(rid, f, "every manifest with surviving files is carried into the new snapshot", lp, bool(inside) and w is None,
+           f"survivors variable(s) {sorted(svars)}; an iteration may end without {lname}.append only on the edge where no file "
+           "survives - otherwise the surviving rows of that manifest silently leave the table", witness=ctx.path_witness(f, w))
+    for a in inside:
+        arg = a.ast.args[0] if a.ast.args else None  # type: ignore[union-attr]
+        org = sl.origins(arg, a.id)
+        from_loop = isinstance(lp.ast.target, ast.Name) and lp.ast.target.id in org["names"]  # type: ignore[union-attr]
+        rewritten = any(isinstance(c, ast.Call) and (dotted(c.func) or "").endswith("create_manifest_file") for c in org["calls"])
+        ctx.ob(rid, f, "what is carried over is this manifest or its rewrite", a, from_loop or rewritten, "")
+
+
 def r7(ctx: Ctx) -> None:
     ctx.rule("C15.R7", "a file delete removes exactly the named files: the filter compares for equality/membership with both operands "
              "under the same leading-slash normalisation", 1)
     f = ctx.fn("transaction.Transaction._commit_file_ops")
     g = ctx.cfg(f)
-    comps = [n for n in ast.walk(f.node) if isinstance(n, ast.ListComp) and "data_files" in norm_text(n.generators[0].iter)]
+    # the function itself plus helpers extracted from it later (their statements appear, alpha-renamed, in f's CFG)
+    roots: List[ast.AST] = [f.node] + [n.ast for n in g.nodes if n.ast is not None and n.kind in ("stmt", "return")]
+    comps = []
+    for root in roots:
+        for n in ast.walk(root):
+            if isinstance(n, ast.ListComp) and "data_files" in norm_text(n.generators[0].iter) and n.generators[0].ifs and n not in comps:
+                comps.append(n)
     if not comps:
         raise AnalysisError("surviving-files comprehension vanished from _commit_file_ops")
     c = comps[0]
